@@ -89,7 +89,9 @@ declare_class("FastaSeq", fields={"name": STR, "g_kind": INT, "g_first": INT, "g
 declare_class(
     "FastaIndex",
     fields={"fasta_fileandle": TRef("FastaFH"), "buffer_size": INT, "index": TDict(STR, TRef("FastaInfo")),
-            "fasta_file": TRef("Path"), "fai_file": TRef("Path"), "agp_file": TRef("Path")},
+            "fasta_file": TRef("Path"), "fai_file": TRef("Path"), "agp_file": TRef("Path"),
+            # ghost typestate: whether .index / .assembly have been filled (they start as None)
+            "g_index_loaded": BOOL, "g_assembly_loaded": BOOL},
 )
 # binary output stream of FastaStream: ghost column of the current line, residues written for the
 # current record, and the line length the writes are checked against
